@@ -350,9 +350,38 @@ def fext_layout(chk):
             return lval(fn, a, sizes, elem)
         return None
 
+    # idiom (d): one pre-allocated vector filled through views at a running offset
+    pre = set()      # names bound to np.zeros(self.get_size())
+    offs = set()     # running-offset variables (initialised to 0)
+    events = []      # ('S', cont, term, inner, line) view taken at the offset / ('I', cont, term, inner, line) offset advanced
+    inner = [0]
+
     def walk(body, cont, elem):
         nonlocal skin_len
         for st in body:
+            if isinstance(st, ast.Assign) and isinstance(st.targets[0], ast.Name) and isinstance(st.value, ast.Call) and dotted(st.value.func) in ('np.zeros', 'zeros') \
+                    and st.value.args and norm(st.value.args[0]) in ('self.get_size()', 'self.size'):
+                pre.add(st.targets[0].id)
+                continue
+            if isinstance(st, ast.Assign) and isinstance(st.targets[0], ast.Name) and isinstance(st.value, ast.Constant) and st.value.value == 0 and cont is None:
+                offs.add(st.targets[0].id)
+                continue
+            if isinstance(st, ast.Assign) and isinstance(st.targets[0], ast.Name) and isinstance(st.value, ast.Subscript) and norm(st.value.value) in pre \
+                    and isinstance(st.value.slice, ast.Slice):
+                sl = st.value.slice
+                lo = norm(sl.lower) if sl.lower is not None else '0'
+                term = None
+                if lo in offs and isinstance(sl.upper, ast.BinOp) and isinstance(sl.upper.op, ast.Add):
+                    a, b = norm(sl.upper.left), norm(sl.upper.right)
+                    other = b if a == lo else a if b == lo else None
+                    term = sizes.get(other) if other else None
+                events.append(('S', cont, term, inner[0], st.lineno))
+                env[st.targets[0].id] = term
+                continue
+            if isinstance(st, ast.AugAssign) and isinstance(st.target, ast.Name) and st.target.id in offs:
+                term = sizes.get(norm(st.value)) if isinstance(st.op, ast.Add) else None
+                events.append(('I', cont, term, inner[0], st.lineno))
+                continue
             if isinstance(st, ast.Assign) and isinstance(st.targets[0], ast.Name):
                 nm = st.targets[0].id
                 v = lval(fn, st.value, sizes, elem)
@@ -384,15 +413,39 @@ def fext_layout(chk):
                 if d in ('self.bladestiff2ds', 'self.tstiff2ds', 'self.bladestiff1ds', 'self.panels') and isinstance(tgt, ast.Name):
                     walk(st.body, d[5:], tgt.id)
                 else:
+                    inner[0] += 1
                     walk(st.body, cont, elem)
+                    inner[0] -= 1
             elif isinstance(st, ast.If):
+                inner[0] += 1
                 walk(st.body, cont, elem)
                 walk(st.orelse, cont, elem)
+                inner[0] -= 1
     walk(fn.body, None, None)
+    want = [('bladestiff2ds', ('EL(flange)',)), ('tstiff2ds', ('EL(base)', 'EL(flange)'))]
+    if events:
+        # every view [pos: pos+size] is followed, at the same nesting level and before the next view, by exactly one pos += size
+        segs = [e for e in events if e[0] == 'S']
+        for k, e in enumerate(events):
+            if e[0] != 'S':
+                continue
+            nxt = events[k + 1:k + 2]
+            oki = bool(nxt) and nxt[0][0] == 'I' and nxt[0][1:4] == e[1:4] and e[2] is not None and e[3] == 0 and \
+                (k + 2 >= len(events) or events[k + 2][0] == 'S')
+            chk.ob('R13.2', oki, BAY, fname, 'offset advanced once by the length of block #%d' % (segs.index(e) + 1), line=e[4],
+                   expected='view [pos: pos+size] then one `pos += size` at the same level (once per component, whatever its number of forces)',
+                   got=[(x[0], x[1], x[2][0] if x[2] else None, 'nested %d' % x[3], 'line %d' % x[4]) for x in events[k:k + 3]],
+                   detail='' if oki else 'the offset is advanced a number of times that depends on the forces of the component (or by another length): the blocks of the following components land at the wrong place',
+                   sample='calc_fext: block #%d of length %s at the running offset' % (segs.index(e) + 1, e[2]))
+        skin_len = segs[0][2] if segs and segs[0][1] is None else None
+        order = []
+        for c in ('bladestiff2ds', 'tstiff2ds'):
+            ts = [e[2] for e in segs if e[1] == c]
+            if ts:
+                order.append((c, ts, 0))
     chk.ob('R13.2', skin_len == ('SKIN',), BAY, fname, 'skin block first', expected='leading block of length num*m*n', got=skin_len,
            sample='calc_fext: skin block of length num*m*n first')
     got = [(c, tuple(t[0] if t else None for t in (terms or []))) for c, terms, line in order]
-    want = [('bladestiff2ds', ('EL(flange)',)), ('tstiff2ds', ('EL(base)', 'EL(flange)'))]
     chk.ob('R13.2', got == want, BAY, fname, 'concatenation order equals the matrix layout', expected=want, got=got,
            sample='calc_fext appends %s' % (got,))
     # R07.4 kernel class guards are evaluated in c07
@@ -452,6 +505,30 @@ def uvw_stiffener_layout(chk, rule='R11.6'):
            expected='offsets accumulated over self.bladestiff2ds then self.tstiff2ds (the order used by calc_k0/get_size)',
            got=[c for c, l in conts],
            detail='uvw_stiffener accumulates the offset over self.stiffeners (insertion order) while the matrices are laid out kind-major: with mixed kinds added in another order the wrong slice of c is evaluated')
+    # the offset of element i is the total size of the elements before it: inside the accumulation loop every
+    # size added comes from the previous element (the variable bound to <container>[i-1]), never from the current one
+    for lp in loops:
+        tv = [e.id for e in ast.walk(lp.target) if isinstance(e, ast.Name)]
+        if len(tv) != 2:
+            continue
+        idx, cur = tv
+        prev = [norm(a.targets[0]) for a in ast.walk(lp) if isinstance(a, ast.Assign) and isinstance(a.value, ast.Subscript) and norm(a.value.slice) == idx + '-1']
+        adds = [a for a in ast.walk(lp) if isinstance(a, ast.AugAssign) and isinstance(a.op, ast.Add)]
+        for ka, a in enumerate(adds):
+            roots = []
+            for c in ast.walk(a.value):
+                if isinstance(c, ast.Call) and isinstance(c.func, ast.Attribute) and c.func.attr == 'get_size':
+                    r = c.func.value
+                    while isinstance(r, ast.Attribute):
+                        r = r.value
+                    roots.append(norm(r))
+            if not roots:
+                continue
+            okp = bool(prev) and all(r in prev for r in roots)
+            chk.ob(rule, okp, BAY, fname, 'offset accumulates the sizes of the preceding stiffeners (%s #%d)' % (norm(a.target), ka + 1), line=a.lineno,
+                   expected='%s += sizes of %s (the element before the current one)' % (norm(a.target), prev or '<container>[i-1]'), got=norm(a)[:120],
+                   detail='' if okp else 'a size of the current element %r is added to the start position: the wrong slice of c is evaluated as soon as two stiffeners differ in their number of terms' % cur,
+                   sample='uvw_stiffener: %s' % norm(a)[:80])
     # every method called on a stiffener object exists in its class
     classes = {}
     for cls, rel in STIFF.items():
